@@ -288,6 +288,13 @@ pub fn shrink(scn: &'static dyn Scenario, plan: &Plan, fp: &str, budget: usize) 
             best = p;
         }
     }
+    if best.sched.lock_yield != 0 {
+        let mut p = best.clone();
+        p.sched.lock_yield = 0;
+        if same(&exec(scn, &p, false)) {
+            best = p;
+        }
+    }
     let o = exec(scn, &best, true);
     (best, o)
 }
